@@ -18,6 +18,7 @@ fn main() {
             "C01" => pdfmon::sup::worker_loop(pdfmon::props::c01::worker(tier, seed)),
             "C14" => pdfmon::sup::worker_loop(pdfmon::props::c14::worker(tier, seed)),
             "C20" => pdfmon::sup::worker_loop(pdfmon::props::c20::worker(tier, seed)),
+            "C13" => pdfmon::sup::worker_loop(pdfmon::props::c13::worker(tier, seed)),
             _ => std::process::exit(2),
         }
         return;
